@@ -36,7 +36,7 @@ def drain_size(case):
 class C04(Spec):
     PROP = 'C04'
     MODEL = 'queue'
-    PROOF_MODULES = ['PsiProofs.C04', 'PsiProofs.C03Pause']
+    PROOF_MODULES = ['PsiProofs.C04', 'PsiProofs.C04Append', 'PsiProofs.C03Pause']
     DESIGN_REF = 'DESIGN.md §6 C04'
     TRUST = [
         'modelled, not verified: list/dict/Counter semantics used by cancel/requeue; float -> sample conversion of '
